@@ -1822,7 +1822,13 @@ class SpaceUpdater(SharedSpaceOperations):
             nodes_removed.append(child)
             self._remove_hook(self._graph, child)
 
-        for _, v in nx.edge_bfs(self.manager._graph, node):
+        # Sub spaces of the space and of the spaces in its tree,
+        # each after all of its bases
+        descs = set()
+        for child in nodes_removed:
+            descs.update(nx.descendants(self.manager._graph, child))
+        descs.difference_update(nodes_removed)
+        for v in nx.topological_sort(self.manager._graph.subgraph(descs)):
             self._instructions.append(
                 Instruction(self._update_derived_space, (v,))
             )
